@@ -73,6 +73,10 @@ pub struct Stats {
   pub notes: Vec<String>,
   pub frozen: bool,
   pub sample_cap: usize,
+  /// model-based checks: model states visited, transitions taken, traces (cases) run against the implementation
+  pub states: u64,
+  pub transitions: u64,
+  pub traces: u64,
 }
 
 impl Stats {
@@ -129,8 +133,18 @@ impl Stats {
       self.notes.push(s);
     }
   }
+  pub fn model(&mut self, states: u64, transitions: u64, traces: u64) {
+    if !self.frozen {
+      self.states += states;
+      self.transitions += transitions;
+      self.traces += traces;
+    }
+  }
   pub fn merge(&mut self, o: Stats) {
     self.evaluations += o.evaluations;
+    self.states += o.states;
+    self.transitions += o.transitions;
+    self.traces += o.traces;
     self.nontrivial.extend(o.nontrivial);
     for (k, v) in o.classes {
       *self.classes.entry(k).or_insert(0) += v;
@@ -667,6 +681,11 @@ pub fn run_property(p: &Property, ctx: &Ctx, only_sub: Option<&str>) -> RunResul
     "notes": total.notes,
     "threads": ctx.threads,
   });
+  if total.states > 0 && total.transitions > 0 {
+    coverage["states"] = json!(total.states);
+    coverage["transitions"] = json!(total.transitions);
+    coverage["traces_validated_against_impl"] = json!(total.traces);
+  }
   if all_exhaustive && !p.subs.is_empty() && only_sub.is_none() {
     coverage["exhaustive"] = json!(true);
   }
